@@ -161,7 +161,9 @@ const SCHEMA: &[(&[&str], bool)] = &[
     (&["diagnostics", "globals"], true),
     (&["runtime", "version"], false),
     (&["workspace", "library"], true),
+    (&["workspace", "packages"], true),
     (&["workspace", "ignoreDir"], true),
+    (&["workspace", "moduleMap"], true),
     (&["a", "b", "c"], false),
     (&["a", "b", "d"], true),
     (&["a", "e"], false),
@@ -171,13 +173,28 @@ const SCHEMA: &[(&[&str], bool)] = &[
 
 type Settings = Vec<(Vec<String>, Value)>;
 
+/// items of an array-valued setting: strings, numbers, booleans, null, objects (the
+/// `{"path":…,"ignoreDir":[…]}` entries of `workspace.library` / `packages`, module-map rules), nested arrays
+fn gen_array_item(rng: &mut Rng) -> Value {
+    match rng.below(12) {
+        0..=3 => json!(*rng.pick(&["p", "q", "r", "s", "~"])),
+        4 => json!(rng.below(3) as i64),
+        5 => json!(rng.below(2) == 0),
+        6 => Value::Null,
+        7 | 8 => json!({"path": *rng.pick(&["lib", "~/l", "./x"]), "ignoreDir": (0..rng.below(2)).map(|_| *rng.pick(&["t", "u"])).collect::<Vec<_>>()}),
+        9 => json!({"pattern": *rng.pick(&["^a$", "^b$"]), "replace": "m"}),
+        10 => json!([rng.below(2) as i64]),
+        _ => json!({}),
+    }
+}
+
 fn gen_settings(rng: &mut Rng) -> Settings {
     let mut out = Vec::new();
     for (path, is_arr) in SCHEMA {
         if rng.chance(1, 2) {
             let v = if *is_arr {
-                let n = rng.below(4);
-                Value::Array((0..n).map(|_| json!(*rng.pick(&["p", "q", "r", "s", "~"]))).collect())
+                let n = rng.below(5);
+                Value::Array((0..n).map(|_| gen_array_item(rng)).collect())
             } else {
                 match rng.below(3) {
                     0 => json!(rng.below(2) == 0),
@@ -473,6 +490,32 @@ pub fn child_load(file: &str) {
     println!("{}", serde_json::to_string(&e).unwrap_or_default());
 }
 
+/// child mode: `vh-config load-files F1 F2 …` prints canon(load_configs_raw([F1, F2, …], None))
+pub fn child_load_files(files: &[String]) {
+    setup_env();
+    let paths: Vec<PathBuf> = files.iter().map(PathBuf::from).collect();
+    println!("{}", canon(&load_configs_raw(paths, None)));
+}
+
+/// settings as a Lua table constructor (scalars only)
+fn lua_table(settings: &Settings) -> String {
+    fn lit(v: &Value) -> String {
+        match v {
+            Value::String(s) => format!("{:?}", s),
+            Value::Bool(b) => b.to_string(),
+            Value::Number(n) => n.to_string(),
+            _ => "nil".into(),
+        }
+    }
+    fn nest(path: &[String], v: &Value) -> String {
+        if path.len() == 1 { format!("[{:?}] = {}", path[0], lit(v)) } else { format!("[{:?}] = {{ {} }}", path[0], nest(&path[1..], v)) }
+    }
+    // one top-level entry per setting would overwrite shared prefixes: use flat dotted keys instead
+    let _ = nest;
+    let items: Vec<String> = settings.iter().filter(|(_, v)| !v.is_array()).map(|(p, v)| format!("[{:?}] = {}", p.join("."), lit(v))).collect();
+    format!("{{ {} }}", items.join(", "))
+}
+
 fn nontrivial_files(files: &[Value]) -> bool {
     // dotted key, nesting, or more than one file
     fn has(v: &Value) -> bool {
@@ -723,9 +766,19 @@ pub fn run(args: &Args, report: &mut Report) {
             for _variant in 0..3 {
                 let rendered: Vec<Value> = files.iter().map(|s| { let mode = rng.below(3); render(&mut rng, s, mode) }).collect();
                 report.evaluations += 1;
-                let got = impl_load_raw(&rendered).unwrap_or_else(|m| format!("panic {m}"));
+                // as client partial configs, or the earlier files on disk and the last one as a partial config
+                let got = if rng.chance(1, 4) && rendered.len() > 1 {
+                    let d = dir.join(format!("mix{}", report.evaluations));
+                    let texts: Vec<(String, String)> = rendered[..rendered.len() - 1].iter().enumerate().map(|(i, v)| (format!("f{i}.json"), v.to_string())).collect();
+                    let paths = write_files(&d, &texts);
+                    let last = rendered[rendered.len() - 1].clone();
+                    report.count("schema_disk+partial");
+                    vh_common::catch(move || canon(&load_configs_raw(paths, Some(vec![last])))).unwrap_or_else(|m| format!("panic {m}"))
+                } else {
+                    impl_load_raw(&rendered).unwrap_or_else(|m| format!("panic {m}"))
+                };
                 if got != expected {
-                    report.oracle_failure(json!({"input": {"files": rendered}, "what": format!("merged configuration differs from \"later scalar wins, arrays appended without duplicates, flat = nested\": expected {expected}, got {got}"), "class": Value::Null}));
+                    report.oracle_failure(json!({"input": {"files": rendered}, "what": format!("merged configuration differs from \"later scalar wins, arrays = old items followed by the new ones not yet present (structural equality), flat = nested\": expected {expected}, got {got}"), "class": Value::Null}));
                 }
                 outs.push(got);
             }
@@ -749,6 +802,57 @@ pub fn run(args: &Args, report: &mut Report) {
             }
             let _ = std::fs::remove_file(&f);
         }
+    }
+    if c32 {
+        // size/time-skewed file lists: a large (≈7 MB) or computing (Lua) first file, a small last file;
+        // 5 fresh processes each must give the reference merge (later file wins, whatever loads faster)
+        let exe = std::env::current_exe().expect("exe");
+        let n_skew = if thorough { 16 } else { 4 };
+        let d = std::env::temp_dir().join(format!("vh-config-skew-{}", std::process::id()));
+        let _ = std::fs::create_dir_all(&d);
+        for i in 0..n_skew {
+            let first = gen_settings(&mut rng);
+            let mut last = gen_settings(&mut rng);
+            // make sure the two files disagree on at least one scalar
+            last.retain(|(p, _)| p != &vec!["x".to_string()]);
+            last.push((vec!["x".to_string()], json!("last")));
+            let mut first = first;
+            first.retain(|(p, _)| p != &vec!["x".to_string()]);
+            first.push((vec!["x".to_string()], json!("first")));
+            let lua_first = i % 2 == 1;
+            let (first_name, first_text, first_eff): (String, String, Settings) = if lua_first {
+                let scal: Settings = first.iter().filter(|(_, v)| !v.is_array()).cloned().collect();
+                (format!("s{i}a.lua"), format!("local s = 0\nfor i = 1, 3000000 do s = s + i % 7 end\nreturn {}", lua_table(&scal)), scal)
+            } else {
+                let mut v = render(&mut rng, &first, 2);
+                if let Value::Object(m) = &mut v {
+                    m.insert("zz_padding".into(), json!("x".repeat(7_000_000)));
+                }
+                let mut eff = first.clone();
+                eff.push((vec!["zz_padding".to_string()], json!("x".repeat(7_000_000))));
+                (format!("s{i}a.json"), v.to_string(), eff)
+            };
+            let last_text = render(&mut rng, &last, 2).to_string();
+            let fa = d.join(&first_name);
+            let fb = d.join(format!("s{i}b.json"));
+            std::fs::write(&fa, &first_text).unwrap();
+            std::fs::write(&fb, &last_text).unwrap();
+            let expected = canon(&expected_merge(&[first_eff, last.clone()]));
+            for run in 0..5 {
+                let o = std::process::Command::new(&exe).arg("load-files").arg(&fa).arg(&fb).output().expect("child");
+                let got = String::from_utf8_lossy(&o.stdout).trim_end().to_string();
+                report.evaluations += 1;
+                report.count(if lua_first { "skewed_lua_first_runs" } else { "skewed_7MB_first_runs" });
+                if !o.status.success() || got != expected {
+                    let short = |s: &str| if s.len() > 600 { format!("{}…", &s[..600]) } else { s.to_string() };
+                    report.oracle_failure(json!({"input": {"disk_files": [[first_name, if lua_first { first_text.clone() } else { "(7 MB file: settings + zz_padding)".to_string() }], ["b.json", last_text]], "first_settings": first, "last_settings": last}, "what": format!("run {run}: a slow first file and a small last file do not merge as \"later file wins\": expected {}, got {}", short(&expected), short(&got)), "class": Value::Null}));
+                    break;
+                }
+            }
+            let _ = std::fs::remove_file(&fa);
+            let _ = std::fs::remove_file(&fb);
+        }
+        let _ = std::fs::remove_dir_all(&d);
     }
     report.notes.push("Lua configuration files (luars) are exercised by the crash oracle only (search-only); JSON numbers are integers (floats are not modelled); Emmyrc deserialisation and the `\\w` Unicode tables of the env-var regex are outside the model.".into());
 }
